@@ -328,8 +328,11 @@ def run_check(prop, tier):
                 sharded.append((name, max(1, count // nsh), env, tag + ("-s%d" % k if nsh > 1 else ""), seed * 1000 + k if nsh > 1 else seed))
         runs5 = sharded
         import concurrent.futures
+        # scripted histories that are expensive for the model (thousands of coins) run in the thorough tier and when the code
+        # of /repo differs from the committed baseline
+        heavy_env = {"VERIF_HEAVY": "1"} if (thorough or boost) else {}
         with concurrent.futures.ThreadPoolExecutor(max_workers=SHARDS if thorough else 14) as ex:
-            futs = [ex.submit(run_stream, workdir, name, sd, count, thorough, env, tag) for (name, count, env, tag, sd) in runs5]
+            futs = [ex.submit(run_stream, workdir, name, sd, count, thorough, dict(env or {}, **heavy_env) or None, tag) for (name, count, env, tag, sd) in runs5]
             infos = [f.result() for f in futs]
         runs = [(n, c, e, t) for (n, c, e, t, _) in runs5]
         for (name, count, env, tag), info in zip(runs, infos):
